@@ -8,7 +8,8 @@
    interpolant overshot next to a flat end interval (finding F-11); that variant is still refuted in
    Proofs/PchipProofs.v (src_shape_refuted) and its witnesses are regression cases in corpus/C20.json. *)
 From Coq Require Import Reals List.
-From EV Require Import Base.Arith Model.Pchip Proofs.PchipProofs.
+From Coq Require Import PrimFloat.
+From EV Require Import Base.Arith Model.Pchip Proofs.PchipProofs Proofs.PchipFloatWitness.
 Import ListNotations.
 Open Scope R_scope.
 
@@ -115,3 +116,14 @@ Proof. exact witness_valid. Qed.
 
 Theorem C20_former_witness_fixed : pchip_eval R_arith wx wy (1 / 4) = 1.
 Proof. exact witness_fixed_value. Qed.
+
+(* Regression witness for finding F-28 (binary64 instance, by computation): for secants 2^-600 (finite and
+   normal) the former product-based sign tests underflow and answer "not the same sign" / "no sign change",
+   while the sign tests of the source today ([same_sign_mask]/[opp_sign_mask], /repo 79a08c0) answer
+   correctly.  Over R the two forms agree, so all theorems above hold for both. *)
+Theorem C20_product_mask_underflows :
+  same_sign_mask_src float_arith (0x1p-600)%float (0x1p-600)%float = false /\
+  same_sign_mask float_arith (0x1p-600)%float (0x1p-600)%float = true /\
+  opp_sign_mask_src float_arith (0x1p-600)%float (-0x1p-600)%float = false /\
+  opp_sign_mask float_arith (0x1p-600)%float (-0x1p-600)%float = true.
+Proof. exact product_mask_underflows. Qed.
